@@ -1,1 +1,10 @@
 import Gossamer.Props.C03
+open Gossamer.C03
+#print axioms C03_frame
+#print axioms C03_step
+#print axioms C03_inv_reachable
+#print axioms C03_isolated
+#print axioms C03_isolated_hashall
+#print axioms C03_hash_sound
+#print axioms C03_hash_unique
+#print axioms C03_isolated_full_counterexample
